@@ -475,8 +475,9 @@ class LLMGenerationActions:
 
                         # In this case, if the last message is from the user, we replace the text
                         # just in case the input rails may have altered it.
+                        # (in our copy of the list: the message objects belong to the caller)
                         if prompt[-1]["role"] == "user":
-                            raw_prompt[-1]["content"] = event["text"]
+                            prompt[-1] = {**prompt[-1], "content": event["text"]}
                     else:
                         raise ValueError(
                             f"Unsupported type for raw prompt: {type(raw_prompt)}"
